@@ -106,6 +106,17 @@ InvC17 == (IsRun /\ aux.infrag /\ ~aux.stuck) =>
 \* fragment statistics for the evidence (vacuity)
 InvAux == (l > 1 /\ Last.k = "reset") => PrintT(<<"AUX", Last.hid, aux.infrag, aux.stuck, Len(aux.seq)>>)
 
+\* C15, honest part: in honest histories the per-peer result bags of previous and current data are always
+\* nested, the run is not rejected for them, and the new data keeps the larger one
+C15honest(s, e) ==
+    LET pt == s.store[e.peer].trace  ct == CurData(s, e.cur).trace IN
+    \A q \in AttributedPeers(pt) \cup AttributedPeers(ct) :
+        /\ Nested(CidBag(pt, q), CidBag(ct, q))
+        /\ e.out.code # 9
+        /\ ReturnsNewData(e.out.code) /\ e.out.code # 30000 /\ Class(e.out.code) # "catch" =>
+              (BagSubset(CidBag(pt, q), CidBag(e.out.data.trace, q)) /\ BagSubset(CidBag(ct, q), CidBag(e.out.data.trace, q)))
+InvC15 == (IsRun /\ Last.out.died = "") => Report("C15", C15honest(pre, Last))
+
 InvC19 == (IsRun => Report("C19", C19(pre, Last))) /\ (IsObs => Report("C19", C19d(Last)))
 InvC20 == IsRun => Report("C20", C20(pre, Last))
 InvC27 == IsRun => Report("C27", C27(pre, Last))
